@@ -245,17 +245,20 @@ func (p *Parser) led(tokenType tokType, node ASTNode) (ASTNode, error) {
 	case tLparen:
 		name := node.value
 		var args []ASTNode
-		for p.current() != tRparen {
-			expression, err := p.parseExpression(0)
-			if err != nil {
-				return ASTNode{}, err
-			}
-			if p.current() == tComma {
+		if p.current() != tRparen {
+			for {
+				expression, err := p.parseExpression(0)
+				if err != nil {
+					return ASTNode{}, err
+				}
+				args = append(args, expression)
+				if p.current() == tRparen {
+					break
+				}
 				if err := p.match(tComma); err != nil {
 					return ASTNode{}, err
 				}
 			}
-			args = append(args, expression)
 		}
 		if err := p.match(tRparen); err != nil {
 			return ASTNode{}, err
